@@ -25,6 +25,22 @@ func init() {
 		Run: runC09,
 	})
 	addMutants("C09",
+		mutant{"Consume moves the wrong tail", "byte_buffer.go",
+			"\t\tcopy(b.data[b.si:], b.data[b.si+n:b.wi])\n\n\t\tb.ri -= n\n\t\tb.wi -= n", "\t\tcopy(b.data[b.si:], b.data[b.ri:b.wi])\n\n\t\tb.ri -= n\n\t\tb.wi -= n", "C09-R3"},
+		mutant{"Save records the index after moving si", "byte_buffer.go",
+			"\tslot.Index = b.si\n\tb.si += n", "\tb.si += n\n\tslot.Index = b.si", "C09-R5"},
+		mutant{"Reset keeps the save area", "byte_buffer.go",
+			"func (b *ByteBuffer) Reset() {\n\tb.si = 0\n", "func (b *ByteBuffer) Reset() {\n", "C09-R5"},
+		mutant{"UnreadByte can cut into the read area", "byte_buffer.go",
+			"\tif b.WriteLen() > 0 {\n\t\tb.wi -= 1", "\tif b.Len() > 0 {\n\t\tb.wi -= 1", "C09-R5"},
+		mutant{"Write advances by the capacity of its argument", "byte_buffer.go",
+			"\tb.data = append(b.data, bb...)\n\tn := len(bb)", "\tb.data = append(b.data, bb...)\n\tn := cap(bb)", "C09-R5"},
+		mutant{"ClaimFixed allows one byte past the capacity", "byte_buffer.go",
+			"\tif n >= 0 && n <= cap(b.data)-b.wi {\n\t\tclaimed = b.data[b.wi : b.wi+n]", "\tif n >= 0 && n <= cap(b.data)-b.wi+1 {\n\t\tclaimed = b.data[b.wi : b.wi+n]", "C09-R5"},
+		mutant{"ShrinkBy clamps to the read length", "byte_buffer.go",
+			"\tif length := b.WriteLen(); n > length {\n\t\tn = length\n\t}\n\tb.wi -= n", "\tif length := b.ReadLen(); n > length {\n\t\tn = length\n\t}\n\tb.wi -= n", "C09-R5"},
+		mutant{"validator accepts a slot ending past the save area", "byte_buffer.go",
+			"slot.Index <= b.si-slot.Length", "slot.Index <= b.si", "C09-R5"},
 		mutant{"PrepareRead bounded by the whole buffer length", "byte_buffer.go",
 			"\t\tif b.WriteLen() >= need {", "\t\tif b.Len() >= n {", "C09-R4"},
 		mutant{"PrepareRead commits without checking the write area", "byte_buffer.go",
@@ -496,7 +512,16 @@ func runC09(c *Ctx) {
 						dom = false
 					}
 				}
-				if dom {
+				// the tail starts exactly `amount` bytes above its destination: copy(data[x:], data[x+amount:wi])
+				dst, okD := stripConv(call.Call.Args[0]).(*ssa.Slice)
+				exact := false
+				if okD && loadOfField(dst.X, dataF) && dst.Low != nil && src.Low != nil && first != nil {
+					want := strings.Fields(signedLeaves(dst.Low))
+					want = append(want, "+"+exprString(first, nil, 0))
+					sort.Strings(want)
+					exact = strings.Join(want, " ") == signedLeaves(src.Low)
+				}
+				if dom && exact {
 					moved = true
 				}
 			})
@@ -508,6 +533,191 @@ func runC09(c *Ctx) {
 				names = append(names, f.Name())
 			}
 			c.check(good, fn, "shift", fn.Pos(), strings.Join(names, ", ")+" move down by the same amount", spec.name+" does not move "+strings.Join(names, ", ")+" down by one and the same amount after copying data[..:wi] over the removed range on that same path: the regions overlap or a cursor points past the data after the memmove")
+		}
+	}
+
+	// ------------------------------------------------------------------------------------------------ R5
+	c.rule("C09-R5", "exact amounts and bounds of the remaining cursor updates: Save's slot, Reset, shrinking (UnreadByte/ShrinkBy), appends (Write*), claims (Claim/ClaimFixed) and the save-area validator", 9)
+	{
+		m := func(n string) *ssa.Function { return p.Method("sonic", bbT, n) }
+		guardSet := func(b *ssa.BasicBlock) map[string]bool {
+			out := map[string]bool{}
+			for _, l := range guardsOf(b) {
+				if op, x, y, ok := l.cmp(); ok {
+					out[cmpString(op, exprString(x, nil, 0), exprString(y, nil, 0))] = true
+				}
+			}
+			return out
+		}
+		// Save: the slot starts at the old si and has the (clamped) length si moves by
+		{
+			fn := m("Save")
+			var siStore *ssa.Store
+			for _, a := range storesTo(fn, si) {
+				siStore = a.Instr.(*ssa.Store)
+			}
+			good := false
+			why := "Save does not move si"
+			if siStore != nil {
+				why = "the slot Save returns does not describe the bytes it saved (Index = old si, Length = the amount si moved by)"
+				bo, ok := stripConv(siStore.Val).(*ssa.BinOp)
+				idxOK, lenOK := false, false
+				eachInstr(fn, func(in ssa.Instruction) {
+					st, ok2 := in.(*ssa.Store)
+					if !ok2 {
+						return
+					}
+					fv, _ := fieldAddrOf(st.Addr)
+					if fv == nil {
+						return
+					}
+					switch fv.Name() {
+					case "Index":
+						if u, isLoad := stripConv(st.Val).(*ssa.UnOp); isLoad && loadOfField(u, si) && dominatesInstr(u, siStore) {
+							idxOK = true
+						}
+					case "Length":
+						if ok && bo.Op == token.ADD && (stripConv(bo.Y) == stripConv(st.Val) || stripConv(bo.X) == stripConv(st.Val)) {
+							lenOK = true
+						}
+					}
+				})
+				good = ok && idxOK && lenOK
+			}
+			c.check(good, fn, "slot", fn.Pos(), "slot = {old si, amount}", why+": Discard/SavedSlot later address the wrong bytes")
+		}
+		// Reset
+		{
+			fn := m("Reset")
+			zero := 0
+			for _, f := range []*types.Var{si, ri, wi} {
+				for _, a := range storesTo(fn, f) {
+					if isConstInt(a.Val, 0) {
+						zero++
+					}
+				}
+			}
+			resl := false
+			for _, a := range storesTo(fn, dataF) {
+				if sl, ok := stripConv(a.Val).(*ssa.Slice); ok && loadOfField(sl.X, dataF) && sl.High != nil && isConstInt(sl.High, 0) {
+					resl = true
+				}
+			}
+			c.check(zero == 3 && resl, fn, "reset", fn.Pos(), "si = ri = wi = 0, data[:0]", "Reset leaves a cursor or the data length behind: the next session starts with stale saved/readable bytes or cursors that disagree with len(data)")
+		}
+		// shrinking: wi decreases by an amount that is bounded by WriteLen()
+		for _, name := range []string{"UnreadByte", "ShrinkBy"} {
+			fn := m(name)
+			for _, a := range storesTo(fn, wi) {
+				bo, ok := stripConv(a.Val).(*ssa.BinOp)
+				if !ok || bo.Op != token.SUB || !loadOfField(bo.X, wi) {
+					c.bad(fn, "shrink", a.Instr.Pos(), name+" does not decrease wi by an amount")
+					continue
+				}
+				good := false
+				if k, isK := constInt(bo.Y); isK {
+					gs := guardSet(a.Instr.Block())
+					good = gs[cmpString(token.GTR, "WriteLen()", "0")] || gs[cmpString(token.GEQ, "WriteLen()", fmt.Sprint(k))] || gs[cmpString(token.NEQ, "WriteLen()", "0")]
+				} else if big, small, isMin := minPhi(bo.Y); isMin {
+					bs, ss := exprString(big, nil, 0), exprString(small, nil, 0)
+					good = bs == "WriteLen()" || ss == "WriteLen()"
+				}
+				c.check(good, fn, "shrink", a.Instr.Pos(), "the write area shrinks by at most WriteLen()", name+" can move wi below ri (the amount is not bounded by WriteLen()): committed, unread bytes are cut off")
+			}
+		}
+		// appends: wi grows by the length of what was appended
+		for _, name := range []string{"Write", "WriteByte", "WriteString"} {
+			fn := m(name)
+			var appended ssa.Value
+			for _, a := range storesTo(fn, dataF) {
+				if call, ok := strip(a.Val).(*ssa.Call); ok {
+					if b, ok := call.Call.Value.(*ssa.Builtin); ok && b.Name() == "append" && len(call.Call.Args) == 2 {
+						appended = call.Call.Args[1]
+					}
+				}
+			}
+			good := false
+			for _, a := range storesTo(fn, wi) {
+				bo, ok := stripConv(a.Val).(*ssa.BinOp)
+				if !ok || bo.Op != token.ADD || !loadOfField(bo.X, wi) || appended == nil {
+					continue
+				}
+				if name == "WriteByte" {
+					good = isConstInt(bo.Y, 1)
+					continue
+				}
+				if call, ok := stripConv(bo.Y).(*ssa.Call); ok {
+					if b, ok := call.Call.Value.(*ssa.Builtin); ok && b.Name() == "len" {
+						arg := stripConv(call.Call.Args[0])
+						// append(data, bb...) / append(data, s...): the operand itself, or its conversion to []byte
+						if arg == stripConv(appended) || dependsOn(appended, arg) {
+							good = true
+						}
+					}
+				}
+			}
+			c.check(good, fn, "append amount", fn.Pos(), "wi grows by the length of the appended bytes", name+" does not advance wi by exactly the number of bytes it appended: the write area and len(data) disagree")
+		}
+		// claims: exact capacity bound
+		for _, name := range []string{"Claim", "ClaimFixed"} {
+			fn := m(name)
+			for _, a := range storesTo(fn, wi) {
+				bo, ok := stripConv(a.Val).(*ssa.BinOp)
+				if !ok || bo.Op != token.ADD || !loadOfField(bo.X, wi) {
+					continue
+				}
+				amt := exprString(bo.Y, nil, 0)
+				gs := guardSet(a.Instr.Block())
+				good := (gs[cmpString(token.LEQ, amt, "(cap(data)-wi)")] || gs[cmpString(token.LEQ, "("+sortedSum(amt, "wi")+")", "cap(data)")]) && (gs[cmpString(token.GEQ, amt, "0")] || gs[cmpString(token.GTR, amt, "-1")])
+				c.check(good, fn, "claim bound", a.Instr.Pos(), "0 <= n <= cap(data) - wi", fmt.Sprintf("%s advances wi by %s without the exact bound 0 <= n <= cap(data)-wi (guards: %v): a claim one byte too large slices past the capacity (panic) or moves wi beyond the storage", name, amt, keysOf(gs)))
+			}
+		}
+		// the validator of caller-supplied slots
+		{
+			fn := m("inSaveArea")
+			got := map[string]bool{}
+			for _, r := range returnsOf(fn) {
+				if isConstBool(r.Results[0], false) {
+					continue
+				}
+				for _, l := range guardsOf(r.Block()) {
+					if op, x, y, ok := l.cmp(); ok {
+						got[cmpString(op, exprString(x, nil, 0), exprString(y, nil, 0))] = true
+					}
+				}
+				// the last conjunct is the returned comparison itself
+				if bo, ok := stripConv(r.Results[0]).(*ssa.BinOp); ok {
+					got[cmpString(bo.Op, exprString(bo.X, nil, 0), exprString(bo.Y, nil, 0))] = true
+				}
+				if ph, ok := stripConv(r.Results[0]).(*ssa.Phi); ok {
+					for i, e := range ph.Edges {
+						if isConstBool(e, false) {
+							continue
+						}
+						for _, l := range litsAt(ph.Block(), ph.Block().Preds[i]) {
+							if op, x, y, ok := l.cmp(); ok {
+								got[cmpString(op, exprString(x, nil, 0), exprString(y, nil, 0))] = true
+							}
+						}
+						for _, l := range guardsOf(ph.Block().Preds[i]) {
+							if op, x, y, ok := l.cmp(); ok {
+								got[cmpString(op, exprString(x, nil, 0), exprString(y, nil, 0))] = true
+							}
+						}
+						if bo, ok := stripConv(e).(*ssa.BinOp); ok {
+							got[cmpString(bo.Op, exprString(bo.X, nil, 0), exprString(bo.Y, nil, 0))] = true
+						}
+					}
+				}
+			}
+			want := []string{cmpString(token.GTR, "Length", "0"), cmpString(token.GEQ, "Index", "0"), cmpString(token.LEQ, "Length", "si"), cmpString(token.LEQ, "Index", "(si-Length)")}
+			missing := ""
+			for _, w := range want {
+				if !got[w] {
+					missing = w
+				}
+			}
+			c.check(missing == "", fn, "save-area validator", fn.Pos(), "Length > 0, Index >= 0, Length <= si, Index <= si - Length", fmt.Sprintf("inSaveArea does not establish %s (it establishes %v): Discard/SavedSlot accept a slot that reaches outside the save area and move or expose read-area bytes", missing, keysOf(got)))
 		}
 	}
 
@@ -590,4 +800,12 @@ func keysOf(m map[string]bool) []string {
 	}
 	sort.Strings(ks)
 	return ks
+}
+
+// sortedSum renders a+b with the operands in lexical order (the form exprString gives a commutative BinOp).
+func sortedSum(a, b string) string {
+	if a > b {
+		a, b = b, a
+	}
+	return a + "+" + b
 }
